@@ -140,13 +140,22 @@ namespace pika::execution {
 
         void default_agent::suspend(char const* /* desc */)
         {
+#if defined(PIKA_VERIF)
+            PIKA_VERIF_POINT(9001, this);    // schedulable point: about to suspend (no lock held)
+#endif
             std::unique_lock<std::mutex> l(mtx_);
             PIKA_ASSERT(running_);
 
             running_ = false;
             resume_cv_.notify_all();
 
+#if defined(PIKA_VERIF)
+            PIKA_VERIF_POINT(9002, this);    // non-parking: this OS thread blocks now
+#endif
             suspend_cv_.wait(l, [&] { return running_; });
+#if defined(PIKA_VERIF)
+            PIKA_VERIF_POINT(9003, this);    // non-parking: woken
+#endif
 
             if (aborted_)
             {
@@ -158,7 +167,13 @@ namespace pika::execution {
         void default_agent::resume(char const* /* desc */)
         {
             std::unique_lock<std::mutex> l(mtx_);
+#if defined(PIKA_VERIF)
+            if (running_) PIKA_VERIF_POINT(9005, this);    // non-parking: resumer blocks on a running target
+#endif
             resume_cv_.wait(l, [&] { return !running_; });
+#if defined(PIKA_VERIF)
+            PIKA_VERIF_POINT(9004, this);    // non-parking: target is being woken
+#endif
             running_ = true;
             suspend_cv_.notify_one();
         }
